@@ -408,7 +408,8 @@ def parse_vspec(path):
             if '::' in rest2:
                 f, _, rest2 = rest2.partition('::')
                 f = f.strip()
-            stack[-1].append((head[1:], {'file': f, 'name': rest2.strip(), **d}))
+            nm = ' '.join(w for w in rest2.strip().split() if w not in ('pub',))
+            stack[-1].append((head[1:], {'file': f, 'name': nm, **d}))
             i += 1
         else:
             raise Undecided('%s:%d: unknown directive %s' % (path, i + 1, head))
@@ -1066,11 +1067,14 @@ class Extractor:
         m = re.match(r'pub\s*(\([^)]*\))?\s*', text)
         if m:
             # D4: visibility of a const is dropped (everything lives in one module; Verus wants `open` consts pub or private)
-            res.drops.append('D4 visibility `%s` of const %s' % (m.group(0).strip(), qual))
+            res.drops.append('D4 visibility `%s` of const %s dropped' % (m.group(0).strip(), qual))
             text = text[m.end():]
+        if 'pub' in d.get('flags', ()):
+            res.drops.append('D4 const %s made pub' % qual)
+            text = 'pub ' + text
         if d.get('exec') is not None:
             # A6: `const N: T = E;` -> `exec const N: T ensures <clause> { E }` (E verbatim)
-            m = re.match(r'const\s+(\w+)\s*:\s*([^=]+?)\s*=\s*(.*);\s*$', text, re.S)
+            m = re.match(r'(?:pub\s+)?const\s+(\w+)\s*:\s*([^=]+?)\s*=\s*(.*);\s*$', text, re.S)
             if not m:
                 raise Undecided('cannot re-bracket const %s' % qual)
             lab = '[%s] ' % d['id'] if d.get('id') else ''
